@@ -645,104 +645,6 @@ def simpleValue (id : String) (x : Cbor) : Option (D CValue) :=
   else none
 
 mutual
-/-- `decodeValue t` for a raw type `t` -/
-def decodeValue (m : DMode) (tbl : Table) : Nat → CType → Cbor → D CValue
-  | 0, _, _ => .error (.ood "fuel")
-  | f + 1, t, x =>
-    match t with
-    | .nil => .error .err
-    | .prim id =>
-      if id == "Type" then do pure (.type (← decodeTypeValueTop m f x))
-      else match simpleValue id x with
-        | some r => r
-        | none => abstractValue m tbl f x
-    | .opt e =>
-      if isNil x then pure (nilOptional (.opt e))
-      else do pure (.some (← decodeValue m tbl f e x))
-    | .varr e => do
-      let xs ← asArr x
-      pure (.arr (treeOf tbl (.varr e)) (← decodeValues m tbl f e xs))
-    | .carr n e => do
-      let xs ← asArr x
-      if xs.length != n then .error .err else
-      pure (.arr (treeOf tbl (.carr n e)) (← decodeValues m tbl f e xs))
-    | .dict k v => do
-      let xs ← asArr x
-      if xs.length % 2 != 0 then .error .err else
-      pure (.dict (treeOf tbl (.dict k v)) (← decodePairs m tbl f k v [] xs))
-    | .range e =>
-      match x with
-      | .arr [s, en, st] => do
-        let s ← decodeValue m tbl f e s
-        let en ← decodeValue m tbl f e en
-        let st ← decodeValue m tbl f e st
-        pure (.range (treeOf tbl (.range e)) s en st)
-      | _ => .error .err
-    | .cap b =>
-      match x with
-      | .tag tn v => if tn == tagTypeAndValue then typeAndValue m tbl f v else .error .err
-      | .arr [a, i] => do
-        let a ← asBytes a
-        if a.length != 8 then .error .err else
-        let i ← asUint i
-        pure (.cap i a (treeOf tbl b))
-      | _ => .error .err
-    | .ref _ e => decodeValue m tbl f e x
-    | .seen s =>
-      match tbl.find (refIdx s) with
-      | none => .error .err
-      | some e =>
-        if e.kind.isInterface then abstractValue m tbl f x
-        else do
-          let xs ← asArr x
-          if xs.length != e.fields.length then .error .err else
-          pure (.comp (treeOf tbl (.seen s)) (← decodeFieldValues m tbl f e.fields xs))
-    | _ => abstractValue m tbl f x
-/-- the `default` case: a nil value, or a value with its run-time type -/
-def abstractValue (m : DMode) (tbl : Table) : Nat → Cbor → D CValue
-  | 0, _ => .error (.ood "fuel")
-  | f + 1, x =>
-    if isNil x then pure .nilv
-    else match x with
-      | .tag tn v => if tn == tagTypeAndValue then typeAndValue m tbl f v else .error .err
-      | _ => .error .err
-/-- `decodeTypeAndValue` -/
-def typeAndValue (m : DMode) (tbl : Table) : Nat → Cbor → D CValue
-  | 0, _ => .error (.ood "fuel")
-  | f + 1, x =>
-    match x with
-    | .arr [ti, v] => do
-      let t ← inlineT m tbl.ids (f + 1) ti
-      decodeValue m tbl f t v
-    | _ => .error .err
-def decodeValues (m : DMode) (tbl : Table) : Nat → CType → List Cbor → D Values
-  | 0, _, _ => .error (.ood "fuel")
-  | _ + 1, _, [] => pure .nil
-  | f + 1, t, x :: xs => do
-    let v ← decodeValue m tbl f t x
-    pure (.cons v (← decodeValues m tbl f t xs))
-/-- `decodeDictionary`: the raw bytes of the keys must not decrease -/
-def decodePairs (m : DMode) (tbl : Table) : Nat → CType → CType → List UInt8 → List Cbor → D Pairs
-  | 0, _, _, _, _ => .error (.ood "fuel")
-  | _ + 1, _, _, _, [] => pure .nil
-  | _ + 1, _, _, _, [_] => .error .err
-  | f + 1, kt, vt, prev, k :: v :: rest => do
-    let kb := Cbor.encode k
-    if !rawSorted prev kb then .error .err else
-    let key ← decodeValue m tbl f kt k
-    let val ← decodeValue m tbl f vt v
-    pure (.cons key val (← decodePairs m tbl f kt vt kb rest))
-def decodeFieldValues (m : DMode) (tbl : Table) : Nat → Fields → List Cbor → D Values
-  | 0, _, _ => .error (.ood "fuel")
-  | _ + 1, _, [] => pure .nil
-  | f + 1, fs, x :: xs => do
-    let v ← decodeValue m tbl f (fieldTypeAt fs) x
-    pure (.cons v (← decodeFieldValues m tbl f (fieldsRest fs) xs))
-end
-
-/-! ### the message -/
-
-mutual
 /-- number of nodes of an item -/
 def itemSize : Cbor → Nat
   | .arr xs => itemsSize xs + 1
@@ -752,6 +654,153 @@ def itemsSize : List Cbor → Nat
   | [] => 0
   | x :: xs => itemSize x + itemsSize xs + 1
 end
+
+/-- fuel for the type decoders on an item (they use one unit per level and per list position) -/
+def typeFuel (x : Cbor) : Nat := 2 * itemSize x + 2
+
+theorem sizeT_fieldTypeAt_le (fs : Fields) : sizeT (fieldTypeAt fs) ≤ sizeFs fs := by
+  cases fs <;> simp [fieldTypeAt, sizeT, sizeFs]; omega
+
+theorem sizeFs_fieldsRest_le (fs : Fields) : sizeFs (fieldsRest fs) ≤ sizeFs fs := by
+  cases fs <;> simp [fieldsRest, sizeFs]; omega
+
+mutual
+/-- `decodeValue t` for a raw type `t`.  `fuel` bounds the nesting of the item: it goes down with every
+step into a sub-item; the steps that stay on the item (`T?` to `T`, `&T` to `T`) go down in the type. -/
+def decodeValue (m : DMode) (tbl : Table) (fuel : Nat) (t : CType) (x : Cbor) : D CValue :=
+  match t with
+  | .nil => .error .err
+  | .prim id =>
+    if id == "Type" then do pure (.type (← decodeTypeValueTop m (typeFuel x) x))
+    else match simpleValue id x with
+      | some r => r
+      | none => abstractValue m tbl fuel x
+  | .opt e =>
+    if isNil x then pure (nilOptional (.opt e))
+    else do pure (.some (← decodeValue m tbl fuel e x))
+  | .varr e =>
+    match fuel with
+    | 0 => .error (.ood "fuel")
+    | f + 1 => do
+      let xs ← asArr x
+      pure (.arr (treeOf tbl (.varr e)) (← decodeValues m tbl f e xs))
+  | .carr n e =>
+    match fuel with
+    | 0 => .error (.ood "fuel")
+    | f + 1 => do
+      let xs ← asArr x
+      if xs.length != n then .error .err else
+      pure (.arr (treeOf tbl (.carr n e)) (← decodeValues m tbl f e xs))
+  | .dict k v =>
+    match fuel with
+    | 0 => .error (.ood "fuel")
+    | f + 1 => do
+      let xs ← asArr x
+      if xs.length % 2 != 0 then .error .err else
+      pure (.dict (treeOf tbl (.dict k v)) (← decodePairs m tbl f k v [] xs))
+  | .range e =>
+    match fuel with
+    | 0 => .error (.ood "fuel")
+    | f + 1 =>
+      match x with
+      | .arr [s, en, st] => do
+        let s ← decodeValue m tbl f e s
+        let en ← decodeValue m tbl f e en
+        let st ← decodeValue m tbl f e st
+        pure (.range (treeOf tbl (.range e)) s en st)
+      | _ => .error .err
+  | .cap b =>
+    match x with
+    | .tag tn v => if tn == tagTypeAndValue then typeAndValue m tbl fuel v else .error .err
+    | .arr [a, i] => do
+      let a ← asBytes a
+      if a.length != 8 then .error .err else
+      let i ← asUint i
+      pure (.cap i a (treeOf tbl b))
+    | _ => .error .err
+  | .ref _ e => decodeValue m tbl fuel e x
+  | .seen s =>
+    match tbl.find (refIdx s) with
+    | none => .error .err
+    | some e =>
+      if e.kind.isInterface then abstractValue m tbl fuel x
+      else
+        match fuel with
+        | 0 => .error (.ood "fuel")
+        | f + 1 => do
+          let xs ← asArr x
+          if xs.length != e.fields.length then .error .err else
+          pure (.comp (treeOf tbl (.seen s)) (← decodeFieldValues m tbl f e.fields xs))
+  | .inter _ => abstractValue m tbl fuel x
+  | .func _ _ _ _ => abstractValue m tbl fuel x
+  | .comp _ _ _ _ _ => abstractValue m tbl fuel x
+termination_by (fuel, sizeT t + 2)
+decreasing_by
+  all_goals simp_wf
+  all_goals first
+    | (apply Prod.Lex.left; omega)
+    | (apply Prod.Lex.right; simp [sizeT]; done)
+    | (apply Prod.Lex.right; simp [sizeT]; omega)
+/-- the `default` case: a nil value, or a value with its run-time type -/
+def abstractValue (m : DMode) (tbl : Table) (fuel : Nat) (x : Cbor) : D CValue :=
+  if isNil x then pure .nilv
+  else match x with
+    | .tag tn v => if tn == tagTypeAndValue then typeAndValue m tbl fuel v else .error .err
+    | _ => .error .err
+termination_by (fuel, 1)
+decreasing_by
+  all_goals simp_wf
+  all_goals (apply Prod.Lex.right; omega)
+/-- `decodeTypeAndValue` -/
+def typeAndValue (m : DMode) (tbl : Table) (fuel : Nat) (x : Cbor) : D CValue :=
+  match fuel with
+  | 0 => .error (.ood "fuel")
+  | f + 1 =>
+    match x with
+    | .arr [ti, v] => do
+      let t ← inlineT m tbl.ids (typeFuel ti) ti
+      decodeValue m tbl f t v
+    | _ => .error .err
+termination_by (fuel, 0)
+decreasing_by
+  all_goals simp_wf
+  all_goals (apply Prod.Lex.left; omega)
+def decodeValues (m : DMode) (tbl : Table) (fuel : Nat) (t : CType) : List Cbor → D Values
+  | [] => pure .nil
+  | x :: xs => do
+    let v ← decodeValue m tbl fuel t x
+    pure (.cons v (← decodeValues m tbl fuel t xs))
+termination_by xs => (fuel, sizeT t + 3 + xs.length)
+decreasing_by
+  all_goals simp_wf
+  all_goals (apply Prod.Lex.right; omega)
+/-- `decodeDictionary`: the raw bytes of the keys must not decrease -/
+def decodePairs (m : DMode) (tbl : Table) (fuel : Nat) (kt vt : CType) (prev : List UInt8) : List Cbor → D Pairs
+  | [] => pure .nil
+  | [_] => .error .err
+  | k :: v :: rest => do
+    let kb := Cbor.encode k
+    if !rawSorted prev kb then .error .err else
+    let key ← decodeValue m tbl fuel kt k
+    let val ← decodeValue m tbl fuel vt v
+    pure (.cons key val (← decodePairs m tbl fuel kt vt kb rest))
+termination_by xs => (fuel, sizeT kt + sizeT vt + 3 + xs.length)
+decreasing_by
+  all_goals simp_wf
+  all_goals (apply Prod.Lex.right; omega)
+def decodeFieldValues (m : DMode) (tbl : Table) (fuel : Nat) (fs : Fields) : List Cbor → D Values
+  | [] => pure .nil
+  | x :: xs => do
+    let v ← decodeValue m tbl fuel (fieldTypeAt fs) x
+    pure (.cons v (← decodeFieldValues m tbl fuel (fieldsRest fs) xs))
+termination_by xs => (fuel, sizeFs fs + 3 + xs.length)
+decreasing_by
+  all_goals simp_wf
+  · apply Prod.Lex.right; have := sizeT_fieldTypeAt_le fs; omega
+  · apply Prod.Lex.right; have := sizeFs_fieldsRest_le fs; omega
+end
+
+/-! ### the message -/
 
 mutual
 /-- the CCF ids under every type-ref tag of an item -/
@@ -764,27 +813,28 @@ def refsOfList : List Cbor → List Nat
   | x :: xs => refsOf x ++ refsOfList xs
 end
 
-/-- fuel for one message: every step of the value decoder goes down in the item or, with the item
-unchanged, down in a type that was decoded from the message -/
-def msgFuel (x : Cbor) : Nat := (itemSize x + 2) * (itemSize x + 2)
+/-- fuel for one message: the nesting of the item -/
+def msgFuel (x : Cbor) : Nat := itemSize x + 1
 
 /-- `Decoder.Decode` on the item of the message.  `types.hasUnreferenced()`: when the value has been
 decoded, every type-ref tag of the message has been decoded as a reference (no other position of a
 message accepts that tag), so the referenced definitions are the ids under these tags. -/
-def decodeMsg (m : DMode) (x : Cbor) : D CValue :=
-  let fuel := msgFuel x
+def decodeMsgF (m : DMode) (fuel : Nat) (x : Cbor) : D CValue :=
   match x with
   | .tag t body =>
     if t == tagTypeDefAndValue then
       match body with
       | .arr [defs, tv] => do
-        let tbl ← decodeTypeDefs m fuel defs
+        let tbl ← decodeTypeDefs m (typeFuel defs) defs
         let v ← typeAndValue m tbl fuel tv
         if tbl.length > (refsOf x).eraseDups.length then .error .err else pure v
       | _ => .error .err
     else if t == tagTypeAndValue then typeAndValue m [] fuel body
     else .error .err
   | _ => .error .err
+
+/-- `Decoder.Decode` with the fuel of the message -/
+def decodeMsg (m : DMode) (x : Cbor) : D CValue := decodeMsgF m (msgFuel x) x
 
 /-- `DecMode.Decode`: one item, no trailing bytes.  Bytes that are not shortest-form CBOR of the subset
 are outside the model (`fxamacker/cbor` accepts longer heads). -/
